@@ -548,6 +548,16 @@ class C07(L1Prop):
             ops, g = rand_prefix(rng, rng.randint(6, length), nc, k % 4 == 0, True, True, obs)
             ops += ["reopen"] + [f"reread {c}" for c in range(1, nc + 1)]
             out.append(Case(f"c07-{k}", ops))
+        # other clients whose FIRST upload names a parent that stands in an arithmetic relation to the ids already
+        # in use (the two client ids XORed or added, a client id XORed with the other client's latest version,
+        # the other client's id itself): whatever becomes of that upload, every accepted version is still read
+        for k in range(sizes(tier, 10, 40)):
+            n = 1 + k % 4
+            rel = ["xorc:1:2", "xorc:2:1", "xorl:2:1", "xorl:1:1", "sumc:1:2", "client:1", "client:2"][k % 7]
+            ops = ["ensure 1"] + [f"av 1 {('nil' if k % 3 else 'fresh') if i == 0 else 'latest:1'} b:1,{i}" for i in range(n)]
+            ops += ["reread 1", "ensure 2", f"av 2 {rel} b:2,{k % 200}", "reread 1", "reread 2", "av 2 latest:2 b:3", f"av 1 {rel} b:4",
+                    "reread 1", "reread 2", "av 1 latest:1 b:5", "reread 1", "walk 1", "walk 2"]
+            out.append(Case(f"c07-related-{k}", ops))
         # a write that fails half way (the second statement of add_version, or the write of a snapshot)
         # followed by the retry: what was accepted before and what is accepted by the retry is what is read
         for k in range(sizes(tier, 8, 60)):
@@ -711,6 +721,17 @@ class C08(L1Prop):
                 ops += [f"gcv {c} {spec}", f"av {c} {spec} b:77,{j}"]
             return ops
         out += fixture_cases("c08", rng, sizes(tier, 7, 28), tail)
+        # versions whose history segment is EMPTY somewhere in the chain (the library accepts them; only the HTTP
+        # handler refuses an empty body): asked about their parents, about themselves, and the upload that follows
+        for k in range(sizes(tier, 8, 30)):
+            n = 2 + k % 4
+            empty_at = {k % n, (k // 2) % n} if k % 3 else {n - 1}
+            ops = ["ensure 1"] + [f"av 1 {('nil' if k % 2 else 'fresh') if i == 0 else 'latest:1'} {'e' if i in empty_at else 'b:1,%d' % i}" for i in range(n)]
+            for j in range(n):
+                par = "base:1" if j == 0 else f"ver:1:{j - 1}"
+                ops += [f"gcv 1 {par}", f"av 1 {par} b:77,{j}"]
+            ops += ["gcv 1 latest:1", "av 1 latest:1 e", "gcv 1 anc:1:1", "av 1 anc:1:1 b:78", "gcv 1 latest:1", "av 1 latest:1 b:79"]
+            out.append(Case(f"c08-emptyseg-{k}", ops))
         # over HTTP, the parent (and the client id) written in every spelling the server accepts: the same
         # question and the same upload, on states where the answer is a version, gone and not-found
         for k in range(sizes(tier, 8, 40)):
@@ -1103,6 +1124,32 @@ class C09(L1Prop):
         # under another client id
         from .props_http import interleaved_upload_cases
         out += interleaved_upload_cases("c09", rng, sizes(tier, 12, 100))
+        # over HTTP, two-run: client 1's requests with client 2 active in between — quoting client 1's version ids
+        # in its own uploads (also BEFORE client 1 uses them), breaking off large uploads (hundreds of megabytes in
+        # total), being refused in every way — and client 1's requests alone
+        for k in range(sizes(tier, 8, 40)):
+            n = 2 + k % 3
+            ops = ["http POST av hyph=nil hyph=1 history b:1,1"] + [f"http POST av hyph=latest:1 hyph=1 history b:1,{i}" for i in range(n)]
+            ops += ["http POST av hyph=nil hyph=2 history b:2,2"]
+            kind = k % 4
+            if kind == 0:
+                # the other client uploads a snapshot NAMING client 1's versions, before client 1 does
+                ops += ["http POST as hyph=latest:1 hyph=2 snapshot b:7,7", "http POST as hyph=anc:1:1 hyph=2 snapshot b:7,8", "http GET gcv hyph=latest:1 hyph=2 absent e",
+                        "http GET gcv hyph=anc:1:1 hyph=2 absent e"]
+            elif kind == 1:
+                # the other client's uploads break off after tens of megabytes, again and again
+                tot = 5 if tier != "thorough" else 24
+                ops += [f"http POST {'av' if j % 2 else 'as'} hyph=latest:2 hyph=2 {'history' if j % 2 else 'snapshot'} brk:47185920" for j in range(tot)]
+            elif kind == 2:
+                ops += ["http POST av hyph=latest:1 hyph=2 history b:2,3", "http POST as hyph=latest:2 hyph=2 snapshot b:7,9", "http POST as hyph=latest:1 hyph=2 snapshot b:7,9"]
+            else:
+                ops += ["http POST av hyph=latest:2 hyph=2 history e", "http POST as hyph=latest:1 hyph=2 other b:1", "http POST av hyph=latest:1 hyph=2 history b:2,4",
+                        "http POST as hyph=latest:1 hyph=2 snapshot brk:9"]
+            ops += ["http POST as hyph=latest:1 hyph=1 snapshot b:9,1", "http GET snap - hyph=1 absent e", "http POST av hyph=latest:1 hyph=1 history b:1,9",
+                    "http POST as hyph=anc:1:1 hyph=1 snapshot b:9,2", "http GET snap - hyph=1 absent e", "http POST as hyph=latest:1 hyph=1 snapshot b:9,3",
+                    "http GET snap - hyph=1 absent e", "http GET gcv hyph=anc:1:1 hyph=1 absent e", "http GET gcv hyph=latest:1 hyph=1 absent e",
+                    "http GET gcv hyph=latest:2 hyph=1 absent e", "http POST av hyph=latest:1 hyph=1 history b:1,10"]
+            out.append(Case(f"c09-hx-{k}", ops, {"http": True, "hx": True}, mode="http"))
         # the real executable, several clients taking turns on ONE persistent connection (a pooling
         # reverse proxy): each request is served under the client id IT carries
         for k in range(sizes(tier, 2, 12)):
@@ -1149,12 +1196,24 @@ class C09(L1Prop):
                 if h.route == "av" and r.status == 409 and r.xp.isdigit() and r.xp not in mine.get(h.cid, set()):
                     fails.append(f"op {i}: client {h.cid} was told the latest version is {r.xp}, which belongs to another client")
             return fails
+        if case.meta.get("hx"):
+            return []
         if case.meta.get("http"):
             from .props_http import C06
             return [m + " (uploads of several clients interleaved on one worker)" for m in C06().oracle(case, trace, backend)]
         return []
     def derive(self, case, trace, backend):
         """one solo case per client: its own requests, foreign ids replaced by arbitrary fixed ids"""
+        if case.meta.get("hx"):
+            # client 1 alone: its own requests; ids of the other client become arbitrary fixed ids
+            import re as _re
+            ops = []
+            for o in case.ops:
+                t = o.split()
+                if t[0] == "http" and t[4] == "hyph=1":
+                    t[3] = _re.sub(r"=(latest|anc|ver|base):2(:\d+)?$", lambda m: "=$o" + (m.group(2) or "").replace(":", "_"), t[3])
+                    ops.append(" ".join(t))
+            return [(Case(f"{case.name}-solo1", ops, {"http": True}, mode="http"), 1)]
         if case.meta.get("http") or case.meta.get("overlap") or case.mode != "lib":
             return []
         out = []
@@ -1199,6 +1258,32 @@ class C09(L1Prop):
                 out.append((Case(f"{case.name}-solo{c}", [o for o in case.ops if o.startswith("cfg ")] + ops), c))
         return out
     def compare_derived(self, case, trace, c, solo_trace, backend):
+        if case.meta.get("hx"):
+            from .props_http import HOp, HResp
+            def proj(tr):
+                m, out = {"0": "0", "-": "-"}, []
+                def f(x):
+                    if not x.isdigit(): return x
+                    if x not in m: m[x] = str(len(m))
+                    return m[x]
+                cid = None
+                for (o, ri, _) in tr:
+                    if not o.startswith("http "):
+                        continue
+                    h, r = HOp(o), HResp(ri)
+                    if cid is None:
+                        cid = h.cid          # the first request of the case is client 1's
+                    if h.cid != cid:
+                        continue
+                    out.append((h.meth, h.route, f(h.seg), r.status, f(r.xv), f(r.xp), r.xs, r.ct, r.body))
+                return out
+            a, b = proj(trace), proj(solo_trace)
+            for j, (x, y) in enumerate(zip(a, b)):
+                if x != y:
+                    return [f"{backend}: client 1, its request #{j} over HTTP: with the other client active `{x}`, alone `{y}`"]
+            if len(a) != len(b):
+                return [f"{backend}: client 1: {len(a)} responses with the other client active, {len(b)} alone"]
+            return []
         kinds = ("av", "gcv", "as", "gs", "ensure", "backdate", "setcounter")
         multi = [(o, ri) for (o, ri, _) in trace if Op(o).c == c and Op(o).kind in kinds]
         solo = [(o, ri) for (o, ri, _) in solo_trace if Op(o).kind in kinds]
@@ -1302,6 +1387,18 @@ class C10(L1Prop):
                         ops += [f"av 1 latest:1 b:{i}" for i in range(spos + 1, n)]
                         ops += ["dump 1", f"rowfault anc:1:{dmg} {2 + dmg}", f"as 1 ver:1:{t} b:200,{t}", "dump 1", "gs 1"]
                         out.append(Case(f"c10-rowfault-{k}", ops, {"only": "sqlite", "faults": True})); k += 1
+        # a storage step of an ACCEPTABLE upload fails (the write of the snapshot, the commit): the client is
+        # told so — or the snapshot is replaced; never "success" with the old snapshot still in place
+        for k2 in range(sizes(tier, 6, 24)):
+            n = 3 + k2 % 4
+            ops = ["ensure 1"] + [f"av 1 {'nil' if i == 0 else 'latest:1'} b:{i}" for i in range(n)]
+            if k2 % 2:
+                ops += ["as 1 anc:1:2 b:100"]
+            for back in (1, 0):
+                for idx in range(2, 6):
+                    ops += ["dump 1", f"fault {idx}:before", f"as 1 anc:1:{back} b:200,{back},{idx}", "dump 1", "gs 1"]
+                ops += ["dump 1", f"as 1 anc:1:{back} b:201,{back}", "dump 1", "gs 1"]
+            out.append(Case(f"c10-storefault-{k2}", ops, {"only": "sqlite", "faults": True}))
         nh, length = sizes(tier, (120, 60), (800, 300))
         for j in range(nh):
             g = HistGen(rng, 2, False, True, False)
